@@ -65,6 +65,12 @@ func init() {
 	extraRules["C14"] = stale("proof")
 	extraRules["C13"] = stale("share/pvss", "proof/dleq")
 	extraRules["C08"] = stale("sign/schnorr", "sign/eddsa", "sign/anon")
-	extraRules["C09"] = stale("sign/bls", "sign/tbls", "sign/bdn", "sign/cosi")
+	extraRules["C09"] = func(c *Ctx) {
+		stale("sign/bls", "sign/tbls", "sign/bdn", "sign/cosi")(c)
+		PairedUpdates(c, "default")
+	}
 	extraRules["C07"] = stale("share")
+	extraRules["C10"] = func(c *Ctx) { WriterDiscipline(c, "default", "C10") }
+	extraRules["C11"] = func(c *Ctx) { WriterDiscipline(c, "default", "C11") }
+	extraRules["C12"] = func(c *Ctx) { WriterDiscipline(c, "default", "C12") }
 }
